@@ -306,11 +306,13 @@ def check(prog: Program, tier: str) -> Result:
     res.floors["R3.8"] = 2
     res.floors["R3.9"] = 1
     res.floors["R3.10"] = 1
+    res.floors["R3.11"] = 8
     _r3_5(prog, res)
     _r3_6(prog, res, st)
     _r3_7(prog, res)
     _r3_9(prog, res)
     _r3_10(prog, res)
+    _r3_11(prog, res)
     res.analysed.update({"anchor_functions": [f.fq for f in anchors], "pipeline_stages": len(pipeline_fns),
                          "safe_text_summaries": {f"{k[0]}.{k[1]}": v for k, v in sorted(st.summary.items())}})
     return res
@@ -338,6 +340,56 @@ def _re_can_match_newline(seq) -> bool:
         if name == "BRANCH" and any(_re_can_match_newline(b) for b in av[1]):
             return True
     return False
+
+
+def _r3_11(prog: Program, res: Result) -> None:
+    """A tree and its text belong together: the positions of the nodes are positions in the text that was parsed.  An editor that
+    is handed a text and the tree (or nodes of the tree) of an EARLIER version of it cuts in the wrong places - names of another
+    length shift everything behind them.  Instance: every call of processing.remove_nodes / processing.alter_code (text, tree);
+    obligation: the tree variable was bound to core.parse(<the same variable>) while that variable had the version it has at
+    the call (versions of the path-condition engine)."""
+    n = 0
+    for fn in prog.funcs.values():
+        pa = None
+        for c in prog.calls_in(fn):
+            r = prog.resolve_call(c.func, fn.mod, fn)
+            if not (r and r[0] == "fn" and r[1].key in (("processing", "remove_nodes"), ("processing", "alter_code"))):
+                continue
+            callee = r[1]
+            text = call_arg(c, 0, callee.posparams[0])
+            ri = callee.posparams.index("root") if "root" in callee.posparams else None
+            root = call_arg(c, ri, "root") if ri is not None else None
+            if not (isinstance(text, ast.Name) and isinstance(root, ast.Name)):
+                continue
+            n += 1
+            if fn.key == ("processing", "alter_code"):
+                res.ok("R3.11", fn.loc(c), fn.fq, short(c, 70), "inside alter_code the actions are applied back to front (R3.5): positions in front of an edit stay those of the given tree", trivial=True)
+                continue
+            pa = pa or PathAnalysis(prog, fn)
+            defs = [(s_, v) for s_, v in assignments(fn, root.id) if v is not None]
+            worlds_call = pa.worlds_at(c)
+            if not worlds_call:
+                res.ok("R3.11", fn.loc(c), fn.fq, short(c, 70), "unreachable", trivial=True)
+                continue
+            ok, why = True, ""
+            for w in worlds_call:
+                rtok = w.token(root.id)           # which binding of the tree reaches the call
+                binder = next(((s_, v) for s_, v in defs if rtok.endswith(pa.nid(s_))), None)
+                if binder is None or not (isinstance(binder[1], ast.Call) and (prog.dotted(binder[1].func) or "").split(".")[-1] == "parse"
+                                          and binder[1].args and isinstance(binder[1].args[0], ast.Name)):
+                    if root.id in fn.all_params and text.id in fn.all_params and w.token(root.id).endswith("#0") and w.token(text.id).endswith("#0"):
+                        continue          # both as given by the caller
+                    ok, why = False, f"the tree `{root.id}` is not (visibly) the parse of `{text.id}`"
+                    continue
+                parsed = binder[1].args[0].id
+                at_parse = {x.token(parsed) for x in pa.worlds_at(binder[0])}
+                if parsed != text.id or w.token(text.id) not in at_parse:
+                    ok = False
+                    why = (f"`{root.id}` is the tree of `{parsed}` as it was at line {binder[0].lineno}, but `{text.id}` was rebound since (version {w.token(text.id)}): "
+                           "the positions of its nodes are positions in the OLD text")
+            res.decide(ok, "R3.11", fn.loc(c), fn.fq, short(c, 70), "the tree is the parse of the very text that is edited" if ok else why)
+    if n == 0:
+        raise AnalysisError("R3.11: no call of remove_nodes / alter_code found")
 
 
 def _r3_10(prog: Program, res: Result) -> None:
@@ -1018,6 +1070,8 @@ def _sub_summary(prog: Program, st: SafeText) -> str:
 from ..selftest import Variant  # noqa: E402
 
 VARIANTS = [
+    Variant("duplicates-removed-with-the-tree-of-the-old-text", "FIRE", "fixes",
+            "        source = new_source\n        root = core.parse(source)\n", "        source = new_source\n", "R3.11"),
     Variant("normalised-text-handed-back-for-a-valid-input", "FIRE", "main",
             "        if core.is_valid_python(unformatted_source):\n            return unformatted_source  # It is the layout changes above that broke it\n\n", "", "R3.10"),
     Variant("semicolon-purge-crosses-line-breaks", "FIRE", "processing", "        semicolon_anti_delimiters = re.findall(r\"^[ \\t]*;[ \\t]*\", source[end:])", "        semicolon_anti_delimiters = re.findall(r\"^\\s*;\\s*\", source[end:])", "R3.9"),
